@@ -32,7 +32,7 @@ pub enum Ty {
 }
 
 /// the other built-in types: (ASN.1 spelling, kind label, rasn type of the bindings, JER / TypeScript type)
-pub const BUILTINS: [(&str, &str, &str, &str); 15] = [
+pub const BUILTINS: [(&str, &str, &str, &str); 16] = [
     ("BIT STRING", "BITSTRING", "BitString", "bits"),
     ("OBJECT IDENTIFIER", "OID", "ObjectIdentifier", "string"),
     ("RELATIVE-OID", "RELATIVE-OID", "ObjectIdentifier", "string"),
@@ -42,6 +42,7 @@ pub const BUILTINS: [(&str, &str, &str, &str); 15] = [
     ("NumericString", "NumericString", "NumericString", "string"),
     ("PrintableString", "PrintableString", "PrintableString", "string"),
     ("VisibleString", "VisibleString", "VisibleString", "string"),
+    ("ISO646String", "ISO646String", "VisibleString", "string"),
     ("BMPString", "BMPString", "BmpString", "string"),
     ("UniversalString", "UniversalString", "UniversalString", "string"),
     ("TeletexString", "TeletexString", "TeletexString", "string"),
